@@ -75,6 +75,8 @@ def register(reg):
     register_construction(reg)
     register_access(reg)
     register_field_base(reg)
+    register_io(reg)
+    register_validate(reg)
 
 
 def setvalue_clauses(key):
@@ -138,3 +140,58 @@ def register_field_base(reg):
       ensures={"C12.callable-default-evaluated-anew": "implies(not callable_v(self._default), result == self._default)",
                "C13.read-only": "heap_unchanged()"},
       raises={"C13.read-only": "heap_unchanged()", "C12.only-callable-defaults-raise": "callable_v(self._default)"})
+
+
+def register_io(reg):
+    C = reg.contract
+    KF_ONLY = "forall('p:str', 'implies(not is_keyfile_path(p), fs_cell_same(p))')"
+    C("core:Config.dumps", params={"format": "str", "virtual": "any", "sensitive_mask": "opt:str", "kwargs": "ref:dict"}, returns="bytes",
+      modifies=["fs", "rand_ctr", "fresh", "ncalls", "Config._Config__keyfile@*", "KeyFile._KeyFile__key@*", "KeyFile._KeyFile__refcount@*"],
+      ensures={"C03+C19.only-key-files-touched": KF_ONLY},
+      raises={"C03+C19.only-key-files-touched": KF_ONLY})
+    C("core:Config.save", params={"filename": "str", "format": "str", "kwargs": "ref:dict"},
+      assumes={"A.destination-is-not-a-key-file": "not is_keyfile_path(expanduser(filename))"},
+      modifies=["fs", "rand_ctr", "fresh", "ncalls", "Config._Config__keyfile@*", "KeyFile._KeyFile__key@*", "KeyFile._KeyFile__refcount@*"],
+      ensures={"C19.writes-exactly-the-serialised-bytes": "fs_present(expanduser(filename)) and fs_content(expanduser(filename)) == loc_content"},
+      raises={"C19.failed-save-leaves-destination-untouched": "fs_cell_same(expanduser(filename))"})
+
+
+def register_validate(reg):
+    C = reg.contract
+    MOD = ["fresh", "ncalls"] + ADOPT
+    VALID = "fields_ok_upto(self, config, nfields(self)) and validators_ok_upto(self, config, nvalidators(self))"
+    C("core:Schema._is_feature_enabled", params={"cfg": "ref:Config"}, returns="bool", modifies=["fresh", "ncalls"], noraise=True,
+      ensures={"C11.flag": "result == feature_enabled(self, cfg)"}, trusted=True,
+      note="all(...) over a generator of FeatureFlagFieldMixin fields: generator expressions are outside the subset; decided by the bounded C11 driver")
+    C("core:Schema._validate_field", params={"config": "ref:Config", "field": "ref:BaseField"}, modifies=MOD,
+      defines_ensures={"C11.field-passes": "field_passes(config, field)"},
+      defines_raises={"C11.field-fails": "not field_passes(config, field)"},
+      ensures={"C11.required-field-has-value": "implies(persistent(field) and field.required and not truthy(field.validator), has(config._data, field._key) and get(config._data, field._key) is not None)",
+               "C11.nested-configuration-valid": "implies(not typeis(field, 'ref:Field') and has(config._data, field._key) and typeis(get(config._data, field._key), 'ref:Config'), cfg_valid(get(config._data, field._key)))"},
+      )
+    C("core:Config.validate", params={"collect_errors": "any"}, returns="ref:list", modifies=MOD,
+      ensures={
+          "C11.returns-means-valid": "implies(not truthy(collect_errors), cfg_valid(self))",
+          "C11.collect-iff-invalid": "implies(truthy(collect_errors), iff(len(result) > 0, not cfg_valid(self)))",
+      },
+      raises={"C11.raises-only-when-invalid": "not truthy(collect_errors) and not cfg_valid(self)", "C15.validation-error": "exc_is(ValidationError)"})
+    C("core:Schema._validate", params={"config": "ref:Config", "collect_errors": "any"}, returns="ref:list", modifies=MOD,
+      ensures={
+          "C11.disabled-schema-exempt": "implies(not feature_enabled(self, config), len(result) == 0)",
+          "C11.raising-mode-returns-means-valid": "implies(feature_enabled(self, config) and not truthy(collect_errors), len(result) == 0 and %s)" % VALID,
+          "C11.collect-iff-invalid": "implies(feature_enabled(self, config) and truthy(collect_errors), iff(len(result) > 0, not (%s)))" % VALID,
+      },
+      raises={
+          "C11.raises-only-in-raising-mode": "not truthy(collect_errors) and feature_enabled(self, config)",
+          "C11.raises-only-when-invalid": "not (%s)" % VALID,
+          "C15.validation-error": "exc_is(ValidationError)",
+      },
+      invariants={
+          0: {"errs": "typeis(errors, 'ref:list') and fresh(errors) and typeis(ignore_types, 'ref:tuple') and len(ignore_types) == 3 and N == nfields(self)"
+                      " and ignore_types[0] == IncludeFieldMixin and ignore_types[1] == VirtualFieldMixin and ignore_types[2] == InstanceMethodFieldMixin",
+              "fields-so-far": "iff(len(errors) == 0, fields_ok_upto(self, config, I))",
+              "raising-mode-has-no-errors": "implies(not truthy(collect_errors), len(errors) == 0)"},
+          1: {"errs": "typeis(errors, 'ref:list') and fresh(errors) and N == nvalidators(self)",
+              "validators-so-far": "iff(len(errors) == 0, fields_ok_upto(self, config, nfields(self)) and validators_ok_upto(self, config, I))",
+              "raising-mode-has-no-errors": "implies(not truthy(collect_errors), len(errors) == 0)"},
+      })
